@@ -3,7 +3,7 @@ from vlib import common as C
 from vlib import dcheck, directed
 
 LEVEL = "proof"
-DRIVERS = ["daemon", "alloc"]
+DRIVERS = ["daemon", "alloc", "accept"]
 
 
 def run(ctx, out):
@@ -12,5 +12,8 @@ def run(ctx, out):
                         directed=directed.regressions() + directed.batch_orders() + directed.close_positions(ctx.thorough))
     from vlib.props import alloc_tie
     alloc_tie.run_alloc_tie(ctx, out)
+    # descriptor hygiene of the accept path: real linux_io.c against Cjet.Accept on every single/double fault position
+    from vlib import accept_tie
+    accept_tie.run_accept_tie(ctx, out)
     out.assumptions += ["allocator: the OS never grants a request of 2^63 bytes or more (hypothesis OsOk of cap_respected)",
                         "timer ledger: address tokens are '_'-free and fewer than 2^32 requests per run (the hypotheses of C03's rid_unique)"]
